@@ -49,7 +49,7 @@ def sources(tier, seed, ctx):
             r = random.Random(seed * 17 + n + pi * 1000003)
             outs = gen.pick_outputs(r, net[0], len(net[1]), kind=['last', 'some', 'dup', 'withinput', 'none', 'many'][n % 6])
             outs = [o for o in outs if o >= 1]
-            variant = 'shuffle' if (n % 3 == 1 and ni + len(net[1]) > 0) else 'plain'
+            variant = 'shuffle' if (n % 3 == 1 and ni + len(net[1]) > 0) else 'interleave' if (n % 3 == 2 and len(net[1]) > 0) else 'plain'
             if n % 2 == 0:
                 # in this format constants carry two (ignored) operands
                 net = (net[0], [(t, [r.randint(1, net[0] + k), r.randint(1, net[0] + k)] if t in gen.NULLARY and net[0] + k >= 1 else ops)
@@ -136,6 +136,13 @@ def record(src):
                                 f.write(stream.getvalue())
                         with CircuitsDatabase(path) as db2:
                             back = db2.get_by_label('é-label' if src['vs'] % 2 else 'plain_label')
+                            if back is not None and src['vs'] % 4 >= 2:
+                                # the caller edits what it was given and asks again: the answer must not have changed
+                                try:
+                                    back.set_outputs(list(back.outputs)[:-1] if back.outputs else list(back.gates)[:1])
+                                except Exception:
+                                    pass
+                                back = db2.get_by_label('é-label' if src['vs'] % 2 else 'plain_label')
                 case['db_back'] = project(back) if back is not None else case['c']
                 if back is None:
                     case['db_exc'] = 'label-not-found'
